@@ -44,7 +44,7 @@ def _frame_file(ctx, d, cell, style, eof=False):
     b = ctx.int("b")
     ctx.assume(b >= 0)
     N = ctx.int("N")
-    ctx.assume(N >= 1)
+    ctx.assume(N >= 0)          # a frame may hold no atoms (dump of a temporarily empty group)
     TS = ctx.int("timestep")
     ID, IDINV, TYP = z3.Function("ID", I, I), z3.Function("IDINV", I, I), z3.Function("ATYPE", I, I)
     C = z3.Function("COORD", I, I, R)
@@ -276,7 +276,7 @@ def _replay_dump(case, seed, via="read_lammps"):
             frames = []
             text = ""
             for s in range(F):
-                N = rng.randint(1, 7)
+                N = rng.randint(1, 7) if not (F >= 2 and s == 0 and trial % 4 == 1) else 0      # sometimes an empty first frame
                 lo = [rng.uniform(-5, 5) for _ in range(3)]
                 L = [rng.uniform(2, 6) for _ in range(3)]
                 if cell == "tri":
